@@ -1138,6 +1138,37 @@ impl C19 {
             );
         }
 
+        // the typed framed writer / reader (msgs::write / msgs::read_message::<T>: what the client
+        // side and the serial transports use): the frame is the length of the encoding, then the
+        // encoding, and reading it back gives the same message
+        let mut want_frame = (tb.len() as u32).to_be_bytes().to_vec();
+        want_frame.extend_from_slice(&tb);
+        match guard(|| gen::typed_write(idx, bytes.to_vec())) {
+            Err(p) => return ctx.report(st, Violation::new(format!("C19:{}:typed-write-panic", name), format!("msgs::write panicked: {}", p))),
+            Ok(Err(err)) => return ctx.report(st, Violation::new(format!("C19:{}:typed-write-failed", name), format!("msgs::write = Err({}) for m = {}", err, trunc(dbg, 300)))),
+            Ok(Ok(frame)) => {
+                if frame != want_frame {
+                    return ctx.report(
+                        st,
+                        Violation::new(
+                            format!("C19:{}:typed-write-frame-differs", name),
+                            format!("msgs::write framed {} bytes (announced length {}), the message encodes to {} bytes: {}", frame.len(), frame.get(..4).map(|b| u32::from_be_bytes([b[0], b[1], b[2], b[3]])).unwrap_or(0), tb.len(), first_diff(&frame, &want_frame)),
+                        ),
+                    );
+                }
+            }
+        }
+        match guard(|| gen::typed_read(idx, &want_frame)) {
+            Err(p) => return ctx.report(st, Violation::new(format!("C19:{}:typed-read-panic", name), format!("msgs::read_message panicked: {}", p))),
+            Ok(Err(err)) => return ctx.report(st, Violation::new(format!("C19:{}:typed-read-failed", name), format!("msgs::read_message::<{}> of a well-formed frame = Err({})", name, err))),
+            Ok(Ok(back)) => {
+                if back != tb {
+                    return ctx.report(st, Violation::new(format!("C19:{}:typed-read-differs", name), format!("msgs::read_message::<{}> decodes the frame to another message: {}", name, first_diff(&back, &tb))));
+                }
+            }
+        }
+        st.class("framed:typed-write-read");
+
         match e.streamed_field {
             None => {
                 if b2 != bytes {
